@@ -52,7 +52,8 @@ def build(nl, name='top'):
     b = Built()
     c = b.c = Circuit(name)
     cells = nl['style'] == 'cells'
-    placeholder = Node(c, 'zz_placeholder', 'buf') if nl.get('movedff') else None      # node index 0, removed again at the end
+    placeholder = Node(c, 'zz_placeholder', 'buf') if nl.get('movedff') or nl.get('holdph') else None      # node index 0, removed again at the end
+    b.placeholder = None
     rd = rm.readers(nl)
     npi = nl['pi']
     # nodes ------------------------------------------------------------------------------------
@@ -196,7 +197,10 @@ def build(nl, name='top'):
         # edit history: a spare flip-flop (no data pin, no reader: its next state is 0, nothing depends on it) is created last; removing the
         # placeholder moves it to node index 0, in front of every other state element - s_nodes follows the node order
         Node(c, 'zz_spare_ff', 'DFF')
-        placeholder.remove()
+        if nl.get('holdph'):
+            b.placeholder = placeholder         # left in place: the caller removes it between two uses of the circuit object
+        else:
+            placeholder.remove()
     return b
 
 
